@@ -217,7 +217,7 @@ def tlc(module, cfg, rundir, env=None, workers=1, simulate=None, depth=None, see
     Lines printed with PrintT that start with one of `prefixes` are collected."""
     meta = os.path.join(rundir, "meta.%s.%d" % (cfg.replace("/", "_"), int(time.time() * 1000) % 100000000))
     os.makedirs(meta, exist_ok=True)
-    cmd = ["java", "-XX:+UseParallelGC", "-Xmx" + heap, "-cp", TLC_JARS, "tlc2.TLC",
+    cmd = ["java", "-XX:+UseParallelGC", "-Xss32m", "-Xmx" + heap, "-cp", TLC_JARS, "tlc2.TLC",
            "-workers", str(workers), "-metadir", meta, "-config", os.path.join(SPEC, cfg),
            "-noGenerateSpecTE"]
     if not deadlock:
@@ -281,9 +281,11 @@ def tlc(module, cfg, rundir, env=None, workers=1, simulate=None, depth=None, see
             return res
         res.ok = False
         return res
-    if rc != 0 and not (simulate and rc in (0,)):
-        # rc 0 only; anything else that is not a property violation is infrastructure
-        raise InfraError("TLC failed rc=%s on %s/%s\n%s" % (rc, module, cfg, res.out[-3000:]))
+    if rc != 0:
+        # anything that is not a property violation is infrastructure
+        m = re.search(r"(?s)(Error:.{0,1800})", txt)
+        raise InfraError("TLC failed rc=%s on %s/%s\n%s\n...\n%s" % (
+            rc, module, cfg, m.group(1) if m else "", res.out[-800:]))
     res.ok = True
     return res
 
